@@ -11,6 +11,7 @@ CONSTANTS
     SnapshotOnPush = TRUE
     WithLazy = FALSE
     WithCurrent = TRUE
+    CtxForms <- MC_Forms
     Panics = TRUE
     Emit = TRUE
 VIEW tview
